@@ -62,15 +62,24 @@ def to_script(outs):
     return s
 
 
-def impl_run(timeout_ticks, retries, outs):
+def impl_run(timeout_ticks, retries, outs, cancel=None):
     from puresnmp.exc import Timeout
     from puresnmp.transport import Endpoint, send_udp
 
     loop = VLoop(to_script(outs))
     try:
         try:
-            data = loop.run_until_complete(send_udp(Endpoint("192.0.2.1", 161), PACKET, timeout=timeout_ticks * TICK, loop=loop, retries=retries))
+            call = send_udp(Endpoint("192.0.2.1", 161), PACKET, timeout=timeout_ticks * TICK, loop=loop, retries=retries)
+            if cancel is not None:
+                # the caller's own deadline, half a tick after `cancel` ticks (never at the instant of another event)
+                async def bounded(call=call):
+                    return await asyncio.wait_for(call, (cancel + 0.5) * TICK)
+
+                call = bounded()
+            data = loop.run_until_complete(call)
             result = ["ok", bytes(data).hex()]
+        except asyncio.TimeoutError if cancel is not None else ():
+            result = ["cancelled"]
         except Timeout:
             result = ["error", "timeout"]
         except ConnectionRefusedError:
@@ -90,7 +99,7 @@ def impl_run(timeout_ticks, retries, outs):
             "all_same": all(p == PACKET for _, p in log["sends"]),
             "open": log["open"],
             "opened": log["opened"],
-            "elapsed": round(elapsed / TICK),
+            "elapsed": int(elapsed / TICK) if result == ["cancelled"] else round(elapsed / TICK),
             "result": result,
         }, log
     finally:
@@ -286,6 +295,27 @@ def run(ctx):
             d2 = ctx.rng.choice([x for x in range(d, timeout_ticks * 2 + 4) if x != timeout_ticks])
             outs.append({"reply": ["reply", d, ctx.rng.choice(["%02x%02x" % (d, len(outs)), "", "00"])], "none": ["none"], "two": ["two", d, "e1", d2, "e2"], "oserror": ["oserror", d], "lost": ["lost", d, ctx.rng.random() < 0.7]}[k])
         check_case(res, timeout_ticks, retries, outs, reqs, impls)
+    # a call abandoned by its caller at every instant of a script (the caller's wait_for deadline):
+    # nothing stays open, nothing more is sent, and what was sent is the request
+    for _ in range(ctx.budget(400, 8000)):
+        timeout_ticks = ctx.rng.choice([2, 4, 7])
+        retries = ctx.rng.randint(1, 4)
+        outs = []
+        for _ in range(ctx.rng.randint(0, retries)):
+            k = ctx.rng.choice(["reply", "none", "two", "oserror", "lost", "none"])
+            d = ctx.rng.choice([x for x in range(0, timeout_ticks * 2 + 3) if x != timeout_ticks])
+            d2 = ctx.rng.choice([x for x in range(d, timeout_ticks * 2 + 4) if x != timeout_ticks])
+            outs.append({"reply": ["reply", d, "%02x" % d], "none": ["none"], "two": ["two", d, "e1", d2, "e2"], "oserror": ["oserror", d], "lost": ["lost", d, ctx.rng.random() < 0.7]}[k])
+        cancel = ctx.rng.randint(0, timeout_ticks * retries + 1)
+        obs, _log = impl_run(timeout_ticks, retries, outs, cancel=cancel)
+        case = {"timeout_ticks": timeout_ticks, "retries": retries, "outs": outs, "cancel_after_ticks": cancel}
+        res.count("cancel:" + ("cancelled" if obs["result"] == ["cancelled"] else "ended-before"))
+        if obs["open"] != 0 or obs["sends"] > retries or not obs["all_same"]:
+            res.violate("vt-udp", case, "nothing open, at most `retries` identical transmissions", obs,
+                        f"{obs['open']} endpoint(s) still open / {obs['sends']} transmissions after the call was abandoned by its caller",
+                        {"kind": "udp", "what": "socket-left-open" if obs["open"] else "wrong-behaviour", "after": "cancel"})
+        reqs.append({"op": "udp.run", "packet": PACKET.hex(), "timeout": timeout_ticks, "retries": retries, "outs": outs, "cancel": cancel})
+        impls.append((case, obs))
     loopback(ctx, res)
     if ctx.driver_ok:
         for (case, obs), ans in zip(impls, run_driver(reqs)):
